@@ -377,9 +377,45 @@ func (h *hist) relayTargets() []*net.UDPAddr {
 	return out
 }
 
+// inStepControl fires one of the owner's own requests while data is in flight.
+func (h *hist) inStepControl(st *sim.Step) {
+	c := h.withAlloc()
+	a, ast := h.m.Alloc(c)
+	if a == nil || ast != sim.Live || c.Closed {
+		return
+	}
+	p := h.peerForFamily(c)
+	switch h.rng.Intn(4) {
+	case 0:
+		st.InStepControl(c, nil, func() { h.m.CreatePermission(c, p.Addr) })
+		h.rec.FP("in-step/createpermission")
+	case 1:
+		num := h.chanNumber(c)
+		st.InStepControl(c, map[string]uint16{p.Addr.String(): num}, func() {
+			if r := h.m.ChannelBind(c, num, p.Addr); r != nil && r.Class == wire.ClassSuccess {
+				h.usedNums[c] = append(h.usedNums[c], num)
+			}
+		})
+		h.rec.FP("in-step/channelbind")
+	case 2:
+		st.InStepControl(c, nil, func() { h.m.Refresh(c, sim.U32(uint32(1+h.rng.Intn(1200)))) })
+		h.rec.FP("in-step/refresh")
+	default:
+		st.InStepControl(c, nil, func() { h.m.Refresh(c, sim.U32(0)) })
+		h.rec.FP("in-step/refresh0")
+	}
+}
+
 func (h *hist) dataStep(n int) {
 	st := h.m.Begin()
+	ctrlAt := -1
+	if h.rng.Intn(3) == 0 {
+		ctrlAt = h.rng.Intn(n + 1)
+	}
 	for i := 0; i < n; i++ {
+		if i == ctrlAt {
+			h.inStepControl(st)
+		}
 		switch h.rng.Intn(3) {
 		case 0:
 			c := h.withAlloc()
